@@ -157,7 +157,8 @@ CLAIMS = {
             "Decides the Green-formula plumbing (exponent a+1, divisor a+1, every boundary curve, arguments forwarded), "
             "the layer forwarding down to segments, the coordinate roles of the per-segment quadrature sum (also for "
             "segments with coincident end ordinates / abscissae), that the default node count covers the integrand "
-            "degree for straight segments for all exponents, the float() routes of every shape kind, and that no "
+            "degree for straight segments for all exponents, that every segment of a curve is integrated with its own "
+            "node count, the float() routes of every shape kind, and that no "
             "integral is served from a cache or memo that survived a change of the figure (cache coherence, R04.6).",
             "NOT decided: the quadrature weights (pynurbs), accuracy for curved boundaries, numeric values. Only a "
             "small named fraction of the statement.",
